@@ -225,6 +225,15 @@ def run_case(case):
             return lg + a * math.log(b) - math.lgamma(a) + (a - 1) * u - b * t + u
 
         ref = log_quad(log_integrand)
+        if var.startswith("time-aware") and "tree" in dic:
+            # the time-aware weights are the gaps between consecutive node heights: where the tree has (nearly) collapsed - gaps below 1e-6 of
+            # its height, which extreme ratios of a reparameterised tree produce - the weights span 20 and more orders of magnitude and
+            # neither the closed form nor the quadrature of the library's own density has eight digits: not judged
+            hs_ = np.sort(tt.as_np(dic["tree"].node_heights, "C20:not-a-tensor").reshape(-1))
+            gaps_ = np.diff(hs_[hs_ > 0]) if np.any(hs_ > 0) else np.array([1.0])
+            if len(gaps_) and gaps_.min() < 1e-6 * hs_.max():
+                C["collapsed_trees_not_judged"] = C.get("collapsed_trees_not_judged", 0) + 1
+                ref = None
         C["quadrature_checks"] += 1
         if ref is not None and abs(got - ref) > 1e-8 * max(1.0, abs(ref)):
             V.append(tt.viol("C20:gmrf-integrated:" + var, "GMRFGammaIntegrated() = %.12g, quadrature of GMRF x Gamma over the precision gives %.12g (%s, dim %d, shape %.4g rate %.4g)" % (got, ref, var, dim, a, b), **detail))
@@ -368,6 +377,13 @@ def log_quad(log_f):
     i = int(np.nanargmax(np.where(np.isfinite(vals), vals, -np.inf)))
     m = float(vals[i])
     u0 = float(us[i])
+    # the mode to two decimals (a sharply peaked integrand - large shape, many dimensions - is narrower than the coarse grid)
+    fine = np.linspace(u0 - 0.5, u0 + 0.5, 21)
+    fvals = np.array([log_f(float(u)) for u in fine])
+    if np.any(np.isfinite(fvals)):
+        k = int(np.nanargmax(np.where(np.isfinite(fvals), fvals, -np.inf)))
+        if fvals[k] > m:
+            m, u0 = float(fvals[k]), float(fine[k])
     mp.mp.dps = 30
 
     def f(u):
@@ -375,6 +391,15 @@ def log_quad(log_f):
         return mp.e ** v if v > -700 else mp.mpf(0)
 
     pts = [u0 - 60, u0 - 20, u0 - 8, u0 - 3, u0 - 1, u0, u0 + 1, u0 + 3, u0 + 8, u0 + 20, u0 + 60]
+    # a tail that decays slowly (a gamma density of shape 0.01 in the log variable falls like exp(0.01 u)): the window is widened until the
+    # integrand at its ends is below 1e-25 of the mode; if that takes more than 1e5 log units the reference is not used
+    for side in (-1, 1):
+        w = 60.0
+        while log_f(u0 + side * w) - m > -58.0 and w < 1e5:
+            w *= 2.0
+            pts = ([u0 - w] + pts) if side < 0 else (pts + [u0 + w])
+        if w >= 1e5:
+            return None
     val = mp.quad(f, pts, maxdegree=8)
     if val <= 0:
         return None
